@@ -4,6 +4,7 @@ sd=$1; tier=${2:-quick}
 prop=$(python3 -c "import json,sys; print(json.load(open('$sd/meta.json'))['property'])")
 cd /repo && [ -z "$(git status --porcelain)" ] || { echo "REPO-DIRTY"; exit 4; }; git apply $sd/patch.diff || { echo "PATCH-FAILED $sd"; git checkout -q -- . ; exit 3; }
 git -C /repo reset -q
-cd /verif && ./run $prop $tier > /tmp/seedrun_$(basename $sd).log 2>&1; rc=$?
+# evidence and replays of a run on a SEEDED tree never go to /verif/evidence (that directory only ever describes the unchanged tree)
+cd /verif && VF_OUT=/tmp/seedrun_out_$(basename $sd) ./run $prop $tier > /tmp/seedrun_$(basename $sd).log 2>&1; rc=$?
 cd /repo && { git apply -R $sd/patch.diff 2>/dev/null || git checkout -q -- . ; }; [ -z "$(git status --porcelain)" ] || echo "REPO-LEFT-DIRTY after $sd"
 echo "$(basename $sd) prop=$prop rc=$rc $(grep -E '^VIOLATION|^HARNESS-ERROR' /tmp/seedrun_$(basename $sd).log | head -2 | cut -c1-160)"
